@@ -93,6 +93,23 @@ def run(ck):
                     {"word": "!" + w}, "not offered", "offered")
     ck.count("words", len(words_all), set(words_all), sample={"word": "!add", "impl": lexed.get("!add")},
              vocab_sizes={k: len(v[0]) for k, v in xv.items()}, exhaustive=True)
+    # ---- the same words in context: the token a word becomes must not depend on what was lexed before it (the lexer
+    # model is a function of the remaining text; a lexer with hidden state would show here and as a model disagreement)
+    CONTEXTS = ["class A;\n", "#define FOO\n", "#define 0\n", "#define 4abc\n", "#ifdef \"s\"\n\n// c\n", "#ifndef ;\n", "#ifdef\n", "#else\n", "#endif\n",
+                "// c\n", "/* c */", "\"s\" ", "1 ", "0x1F ", "[{ c }] ", "!add ", "$x ", "a.", "x #", "... ", "- ", "\"unterminated\n", "/* /* */ */ "]
+    ctx_words = sorted(set(rt_top + rt_types + rt_vals + ["!" + w for w in rt_bang]))
+    ctx_texts = [(c, w, c + w + " ;") for c in CONTEXTS for w in ctx_words]
+    ca, cb = core.compare(ck, "words_in_context", [x[2] for x in ctx_texts], lambda w: "lex %s" % hexs(w))
+    for (c, w, text), r in zip(ctx_texts, ca):
+        alone = first_tok(lexed[w])[0]
+        toks = [x for x in r.split(" ") if x and x.split(":")[0] not in ("Whitespace", "LineComment", "BlockComment", "Eof")]
+        # the word is the token before the final `;`
+        kinds = [x.split(":")[0] for x in toks]
+        got = kinds[-2] if len(kinds) >= 2 and kinds[-1] == "Semi" else None
+        if alone not in ("Id", "Error") and got != alone:
+            ck.fail(["C20", "context", w], "offered word %r is lexed as %s after %r (as %s on its own)" % (w, got, c, alone),
+                    {"text": text}, r[-160:], alone)
+    ck.count("words_in_context", len(ctx_texts), {x[2] for x in ctx_texts}, sample={"text": ctx_texts[len(ctx_texts) // 2][2]}, contexts=len(CONTEXTS))
     # ---- every offered statement keyword starts a statement the parser accepts
     sents = []
     for w in rt_top:
